@@ -30,31 +30,31 @@ E_CMAP cell_cm; E_CLU cell_clu; SPV cell_tup; SPC cell_spc; SPTS cell_spts;
   __CPROVER_ensures((v_addFinalStates && fin_wf) ==> fin_done) \
   __CPROVER_ensures(!v_addFinalStates ==> !g_ssf_called) \
   __CPROVER_ensures(g_ucm)
-#define LOOPASG_RIS__B_for_cond , G_FIN
-#define LOOP_RIS__B_for_cond \
-  __CPROVER_loop_invariant(v___end3_slot.f0.f0 == 0) \
-  __CPROVER_loop_invariant((fin_wf && v___begin3_slot.f0.f0 == 0) ==> seen_f) \
+#define LOOPASG_RIS__L_FINALS , G_FIN
+#define LOOP_RIS__L_FINALS \
+  __CPROVER_loop_invariant(END_RIS__L_FINALS.f0.f0 == 0) \
+  __CPROVER_loop_invariant((fin_wf && BEGIN_RIS__L_FINALS.f0.f0 == 0) ==> seen_f) \
   __CPROVER_loop_invariant((fin_wf && seen_f) ==> fin_done)
-#define LOOPASG_RIS__B_for_cond18 , G_L1
-#define LOOP_RIS__B_for_cond18 \
-  __CPROVER_loop_invariant(v___end2_slot.f0.f0 == 0 && g_ucm) \
-  __CPROVER_loop_invariant((has_w && v___begin2_slot.f0.f0 == 0) ==> seen_q) \
+#define LOOPASG_RIS__L_OWNERS , G_L1
+#define LOOP_RIS__L_OWNERS \
+  __CPROVER_loop_invariant(END_RIS__L_OWNERS.f0.f0 == 0 && g_ucm) \
+  __CPROVER_loop_invariant((has_w && BEGIN_RIS__L_OWNERS.f0.f0 == 0) ==> seen_q) \
   __CPROVER_loop_invariant((has_w && seen_q) ==> ins_w)
-#define LOOPASG_RIS__B_for_cond37 , G_L2
-#define LOOP_RIS__B_for_cond37 \
-  __CPROVER_loop_invariant(v___end333_slot.f0.f0 == 0) \
-  __CPROVER_loop_invariant((has_w && cur_q && v___begin329_slot.f0.f0 == 0) ==> seen_a) \
+#define LOOPASG_RIS__L_SYMS , G_L2
+#define LOOP_RIS__L_SYMS \
+  __CPROVER_loop_invariant(END_RIS__L_SYMS.f0.f0 == 0) \
+  __CPROVER_loop_invariant((has_w && cur_q && BEGIN_RIS__L_SYMS.f0.f0 == 0) ==> seen_a) \
   __CPROVER_loop_invariant((has_w && cur_q && seen_a) ==> ins_w) \
   __CPROVER_loop_invariant((has_w && !cur_q && seen_q) ==> ins_w)
-#define LOOPASG_RIS__B_for_cond52 , G_L3
-#define LOOP_RIS__B_for_cond52 \
-  __CPROVER_loop_invariant(v___end4_slot.f0 == 0) \
-  __CPROVER_loop_invariant((has_w && cur_q && cur_a && v___begin4_slot.f0 == 0) ==> seen_t) \
+#define LOOPASG_RIS__L_TUPLES , G_L3
+#define LOOP_RIS__L_TUPLES \
+  __CPROVER_loop_invariant(END_RIS__L_TUPLES.f0 == 0) \
+  __CPROVER_loop_invariant((has_w && cur_q && cur_a && BEGIN_RIS__L_TUPLES.f0 == 0) ==> seen_t) \
   __CPROVER_loop_invariant((has_w && cur_q && cur_a && seen_t) ==> ins_w) \
   __CPROVER_loop_invariant((has_w && cur_q && !cur_a && seen_a) ==> ins_w) \
   __CPROVER_loop_invariant((has_w && !cur_q && seen_q) ==> ins_w)
-#define LOOPASG_RIS__B_for_cond61 , G_L4
-#define LOOP_RIS__B_for_cond61 \
-  __CPROVER_loop_invariant(v___end5_slot.f0 == 0 && g_pos <= g_len && nt_len == g_pos) \
-  __CPROVER_loop_invariant((v___begin5_slot.f0 == 0) == (g_pos == g_len)) \
+#define LOOPASG_RIS__L_CHILDREN , G_L4
+#define LOOP_RIS__L_CHILDREN \
+  __CPROVER_loop_invariant(END_RIS__L_CHILDREN.f0 == 0 && g_pos <= g_len && nt_len == g_pos) \
+  __CPROVER_loop_invariant((BEGIN_RIS__L_CHILDREN.f0 == 0) == (g_pos == g_len)) \
   __CPROVER_loop_invariant(wk < g_pos ==> nt_w == g_exp_w)
